@@ -5,6 +5,7 @@ import (
 	"crypto/sha256"
 	"fmt"
 
+	"github.com/canopy-network/canopy/lib"
 	"github.com/canopy-network/canopy/store"
 
 	"verifharness/drv"
@@ -29,9 +30,9 @@ var cacheCases = []int{0, -1, -7}
 // cacheCaseCount is the number of corpus cases of a tier (thorough adds the organic one).
 func cacheCaseCount(thorough bool) int {
 	if thorough {
-		return len(cacheCases) + 2
+		return len(cacheCases) + 3
 	}
-	return len(cacheCases) + 1 // + the digest-valued states
+	return len(cacheCases) + 2 // + the digest-valued states + the empty-valued keys
 }
 
 func runCacheCase(o *emitter, u *Universe, ci int) {
@@ -39,7 +40,11 @@ func runCacheCase(o *emitter, u *Universe, ci int) {
 		runDigestValueCase(o, u)
 		return
 	}
-	if ci > len(cacheCases) {
+	if ci == len(cacheCases)+1 {
+		runEmptyValueCase(o, u)
+		return
+	}
+	if ci > len(cacheCases)+1 {
 		runCacheOrganic(o)
 		return
 	}
@@ -276,6 +281,174 @@ func runDigestValueCase(o *emitter, u *Universe) {
 		if bytes.Equal(roots[i], roots[i+1]) {
 			o.Fail("C08:root-collision:value-vs-its-digest",
 				fmt.Sprintf("the states {k: w} and {k: sha256(w)} (w = %x) commit to the same root %x", w, roots[i]), h)
+		}
+	}
+}
+
+// runEmptyValueCase (permanent corpus `empty-valued-keys`): a key may be set to an EMPTY value (nil or []byte{}; the FSM
+// does it: Set(KeyForCommittee(..), nil)). Such a key is PRESENT — its leaf commits to hash("") — until it is deleted,
+// and absent afterwards: "joined then left" and "never joined" are the same state and must have the same root.
+//
+//	C08:root-not-canonical:delete-of-empty-valued-key   root != canonical commitment after deleting a committed empty-valued key
+//	C08:root-not-canonical:empty-valued-key             ... at any other point of the history
+//	C08:history-dependence:empty-valued-key             the two histories end in different roots
+//
+// Through the real Store (blocks) and the real SMT (commits).
+func runEmptyValueCase(o *emitter, u *Universe) {
+	var hist []string
+	defer func() {
+		if p := recover(); p != nil {
+			o.Fail("C08:panic-in-real-code", fmt.Sprintf("empty-valued-keys: %v | %s", p, shortStack()), hist)
+		}
+	}()
+	o.Case("corpus empty-valued-keys")
+	var k []UKey
+	for i := 100; len(k) < 8; i++ {
+		if x := u.Keys[i]; !u.Reserved(x.Bits) && !u.Border[x.Bits] {
+			k = append(k, x)
+		}
+	}
+	type w struct {
+		k   UKey
+		val []byte
+		del bool
+	}
+	empty := []byte{}
+	blocks := [][]w{
+		{{k[0], nil, false}, {k[1], empty, false}, {k[2], []byte("x"), false}, {k[6], nil, false}},
+		// later block: delete committed empty-valued keys, overwrite to empty, set+delete an empty-valued key in one block
+		{{k[0], nil, true}, {k[1], nil, true}, {k[2], nil, false}, {k[3], []byte("y"), false}, {k[4], empty, false}, {k[4], nil, true}},
+		{{k[2], []byte("z"), false}, {k[5], nil, false}, {k[6], nil, true}, {k[7], nil, true}},
+	}
+	refOf := func(state map[string][]byte) []byte {
+		m := Sentinels(160)
+		for b, v := range state {
+			h := sha256.Sum256(v)
+			m[b] = h[:]
+		}
+		r, _ := RefRoot(m)
+		return r
+	}
+	tag := func(a, b []byte) string {
+		if bytes.Equal(a, b) {
+			return "same"
+		}
+		return "differs"
+	}
+	// ---- the real Store
+	runStore := func(bl [][]w, label string) []byte {
+		sti, err := store.NewStoreInMemory(lib.NewNullLogger())
+		if err != nil {
+			panic(err)
+		}
+		st := sti.(*store.Store)
+		defer st.DB().Close()
+		hist = append(hist, "store   # "+label)
+		o.Op("store", "ok")
+		state := map[string][]byte{}
+		var root []byte
+		for bi, blk := range bl {
+			deletesCommittedEmpty := false
+			for _, x := range blk {
+				if x.del {
+					if v, ok := state[x.k.Bits]; ok && len(v) == 0 {
+						deletesCommittedEmpty = true
+					}
+					if e := st.Delete(x.k.User); e != nil {
+						panic(e)
+					}
+					delete(state, x.k.Bits)
+					hist = append(hist, "del "+drv.Hex(x.k.User))
+					o.Op("del "+drv.Hex(x.k.User), "ok")
+				} else {
+					if e := st.Set(x.k.User, x.val); e != nil {
+						panic(e)
+					}
+					state[x.k.Bits] = x.val
+					line := "set " + drv.Hex(x.k.User) + " " + drv.Hex(x.val)
+					hist = append(hist, line)
+					o.Op(line, "ok")
+				}
+			}
+			o.Try("commit")
+			r, e := st.Commit()
+			if e != nil {
+				panic(e)
+			}
+			root = r
+			want := refOf(state)
+			hist = append(hist, "commit")
+			o.Op("commit", fmt.Sprintf("root %s l0 %s version %d", drv.Hex(r), tag(r, want), st.Version()))
+			o.Count("empty:store-block")
+			if !bytes.Equal(r, want) {
+				sig := "C08:root-not-canonical:empty-valued-key"
+				if deletesCommittedEmpty {
+					sig = "C08:root-not-canonical:delete-of-empty-valued-key"
+				}
+				o.Fail(sig, fmt.Sprintf("Store, %s, block %d: root %x, canonical commitment of the state %x", label, bi+1, r, want), hist)
+			}
+		}
+		return root
+	}
+	joined := runStore(blocks, "joined then left")
+	// the final state written directly: k2 = z, k3 = y, k5 = empty
+	never := runStore([][]w{{{k[2], []byte("z"), false}, {k[3], []byte("y"), false}, {k[5], empty, false}}}, "never joined")
+	if !bytes.Equal(joined, never) {
+		o.Fail("C08:history-dependence:empty-valued-key",
+			fmt.Sprintf("Store: the same key/value set reached with and without empty-valued keys that were deleted again: roots %x and %x", joined, never), hist)
+	}
+	// ---- the real SMT
+	t, err := newTree(160, false)
+	if err != nil {
+		panic(err)
+	}
+	defer t.close()
+	o.Op("new 160", fmt.Sprintf("root %s nodes 3 l0 same", drv.Hex(t.smt.Root())))
+	for bi, blk := range blocks {
+		last := map[string]op{}
+		var order []string
+		deletesCommittedEmpty := false
+		for _, x := range blk {
+			if _, seen := last[x.k.Bits]; !seen {
+				order = append(order, x.k.Bits)
+			}
+			if x.del {
+				if v, ok := t.m[x.k.Bits]; ok && bytes.Equal(v, func() []byte { h := sha256.Sum256(nil); return h[:] }()) {
+					deletesCommittedEmpty = true
+				}
+				last[x.k.Bits] = op{k: x.k}
+			} else {
+				v := x.val
+				if v == nil {
+					v = empty
+				}
+				last[x.k.Bits] = op{k: x.k, val: v}
+			}
+		}
+		var ops []op
+		for _, b := range order {
+			ops = append(ops, last[b])
+		}
+		line := opLine("seq", ops)
+		hist = append(hist, line)
+		o.Try(line)
+		if res := t.commit(false, ops); res != "ok" {
+			o.Op(line, res)
+			o.Fail("C08:commit-failed", "empty-valued-keys: "+res, hist)
+			return
+		}
+		applyOracle(t.m, ops)
+		got := t.smt.Root()
+		tab, _ := t.scan()
+		want, _ := RefRoot(t.m)
+		o.Op(line, fmt.Sprintf("root %s nodes %d l0 %s", drv.Hex(got), len(tab), tag(got, want)))
+		o.Count("empty:smt-commit")
+		if !bytes.Equal(got, want) {
+			sig := "C08:root-not-canonical:empty-valued-key"
+			if deletesCommittedEmpty {
+				sig = "C08:root-not-canonical:delete-of-empty-valued-key"
+			}
+			o.Fail(sig, fmt.Sprintf("SMT, commit %d: root %x, canonical commitment %x", bi+1, got, want), hist)
 		}
 	}
 }
